@@ -21,6 +21,8 @@ claimed = {
          "No scheduling semantics: worker pools, GOMAXPROCS and directory listing order are outside; sort.Sort is assumed to return a permutation sorted w.r.t. Less; the final step (unique minimum => order independence) is a paper argument; other map-order leaks are not enumerated. Strings are compared through an order embedding strord (sound for the finitely many strings of a query).", "5.C09"),
  "C10": ("Lock discipline proved for every method of LspServer: each access to the guarded server state (document cache, diagnostics maps, project, colorTime, changeConfFlag) happens with requestMutex held; helpers that touch the state are only called with it held (call-graph fixpoint, checked at each call site); no handler re-acquires the mutex (self-deadlock); the mutex state at every exit equals the state at entry. Whole-handler mutual exclusion gives atomicity, hence serialisability in lock-acquisition order.",
          "No interleaving semantics: goroutines spawned by handlers (worker pools, telemetry), the Go memory model and jrpc2's dispatcher are outside; entry points are read from the handler map in CreateServer; Initialize/Initialized/Shutdown/Exit are exempt (LSP ordering). Self-locked structures (LRUCache etc.) not yet covered.", "5.C10"),
+ "C15": ("Looking through T[] / table<K,V> / ---@alias to the element type: the three accessors are proved to return the item / value / key type of an array or table node, nothing for a bare table, to look through an alias with the SAME accessor (ghost counters on the sibling call sites), and to terminate on every input including cyclic alias chains: each recursive call decreases the lexicographic measure (aliases still allowed, size of the type tree).",
+         "tsize (finite annotation type trees, alternatives smaller than their union) is assumed; class/parent collection (getClassTypeInfoList: no member lost, cyclic inheritance) and member completion assembly are not under contract.", "5.C15"),
  "C16": ("Annotation parsing, necessary conditions: the type grammar builds the documented node shapes - parserOneType returns a union node with at least one alternative, parserTableType a table node whose key and value are both full union types (or neither for a bare 'table'), parserFunType aligned parameter name/type/optional lists (loop invariants), parserSingleType an array node around the single type just parsed; ParseCommentFragment keeps exactly one line number per accepted statement through every line (including dropped empty aliases); both annotation packages raise no panic other than the ParseAnnotateErr sentinel that ParserLine recovers (C01 sweep), which is what confines a malformed line to a warning on that line.",
          "No language-equivalence proof ('accepted iff documented syntax'); print/parse round trip (TypeConvertStr) and the statement parsers' component order are not under contract.", "5.C16"),
  "C17": ("Configuration plumbing proved: each documented switch sits at the index of the diagnostic type it names (52 positional conjuncts over the two list builders); handleNotJSONCheckFlag yields 'type ignored iff its switch is off / beyond the list', master switch off ignores all 29 types (loop invariants over the type map); IsIgnoreErrorFile returns true when the master switch is off or the type is ignored and false when no rule applies; IsSpecialCheck equals the documented gate over types {2,3,10,11,12}; every valid ignore pattern gets its compiled entry on both the client-settings and the luahelper.json path (ReadConfig); invalid patterns cannot panic (extern-pre).",
